@@ -94,6 +94,7 @@ class Part:
     mode: str            # "custom" | "vertex" | "exact"
     has_cond: bool = False
     ftabs: list = field(default_factory=list)
+    geos: list = field(default_factory=list)
     entity_cell: str = ""
 
 
@@ -211,6 +212,7 @@ def programs_of_form(form, form_index, scalar, exact_ok=True, diagonal=False, la
             parts[-1].scheme = rule
             parts[-1].has_cond = tf.has_cond
             parts[-1].ftabs = tf.ftabs
+            parts[-1].geos = tf.geos
         progs.append(Program(form_index, idata.integral_type, sid, cell, tdim, gdim, len(arguments), scalar,
                              spaces, args, cnames, [spaces[n].dim for n in cnames],
                              [int(np.prod(c.ufl_shape, dtype=int)) for c in consts], coord, parts,
@@ -313,7 +315,7 @@ class Oracle:
             parts.append({"tree": part.tree, "aleaves": part.aleaves, "cleaves": part.cleaves,
                           "pts": [[fr(c) for c in p] for p in pts], "wts": [fr(w) for w in wts],
                           "xq": [[[fr(c) for c in p] for p in xs] for xs in xq], "tabs": tabs,
-                          "uses_normal": part.uses_normal, "has_cond": part.has_cond})
+                          "uses_normal": part.uses_normal, "has_cond": part.has_cond, "geos": part.geos})
         self.confs.append({"prog": pidx, "ent": list(ent), "perm": list(perm), "parts": parts})
         self._conf_key[key] = len(self.confs)
         return len(self.confs)
@@ -571,6 +573,19 @@ def make_geometry(prog: Program, kind: str, rnd: random.Random, facet=None):
         nodes = affine_geometry(prog, rnd, M=M)
     else:
         nodes = affine_geometry(prog, rnd)
+    if kind == "pythag":
+        # right-angled cells with legs 3 and 4 (hypotenuse / diagonal 5): every edge length, the diameter and the
+        # circumradius are rational
+        legs = rnd.choice([(3, 4), (4, 3), (6, 8), (8, 6)])
+        sg = [rnd.choice([1, -1]) for _ in range(td)]
+        if td == 1:
+            M = [[sg[0] * rnd.choice([2, 3, 4])]]
+        else:
+            ax = rnd.sample(range(td), td)
+            M = [[0] * td for _ in range(td)]
+            for k in range(td):
+                M[ax[k]][k] = sg[k] * (legs[k] if k < 2 else rnd.choice([3, 4]))
+        return affine_geometry(prog, rnd, M=M)
     if kind == "gentle":
         # the reference cell itself (scaled to integers) with one node nudged by one unit: keeps det J, K and
         # their derivatives at small denominators (cases that need second derivatives of the geometry)
@@ -838,7 +853,7 @@ def replay(chk, path):
     chk.add(distinct_nontrivial=len(nz), rule="replay of one recorded case")
 
 
-def interior_pair(prog: Program, rnd: random.Random, fplus: int):
+def interior_pair(prog: Program, rnd: random.Random, fplus: int, gkind: str = "affine"):
     """Two P1/Q1 cells that really share a facet: '+' cell with local facet fplus, '-' cell the neighbour
     across it in a random local numbering.  Returns (fminus, nodes_plus, nodes_minus, vertex_match) where
     vertex_match[i] = local vertex of '-' coinciding with the i-th vertex of facet fplus of '+'."""
@@ -847,7 +862,7 @@ def interior_pair(prog: Program, rnd: random.Random, fplus: int):
     geom, topo = ref_geometry(prog.cell)
     td = prog.tdim
     nv = len(topo[0])
-    xp = make_geometry(prog, "affine", rnd, facet=fplus)
+    xp = make_geometry(prog, gkind, rnd, facet=fplus)
     if len(xp) != nv:
         raise OutOfModel("interior-facet pairs are built for degree-1 coordinate elements only")
     F = list(topo[td - 1][fplus])
@@ -956,6 +971,7 @@ def programs_of_expression(expr, points, scalar, label=""):
         pt.degree = 0
         pt.has_cond = tf.has_cond
         pt.ftabs = tf.ftabs
+        pt.geos = tf.geos
         parts.append(pt)
     return [Program(0, "expression", -1, cell, tdim, gdim, len(arguments), scalar, spaces, args, cnames,
                     [spaces[n].dim for n in cnames], [int(np.prod(c.ufl_shape, dtype=int)) for c in consts],
